@@ -6,11 +6,6 @@ CONSTANTS
   Ops = {"New", "ParseAbsent", "ParsePresent", "DeepCopy", "MkCopy", "UpdateFrom", "MutateNested", "Drop"}
   MaxOps = 0
   ShareAbsent = FALSE
-  ShallowCopy = FALSE
+  ShallowCopy = TRUE
 VIEW view
-INVARIANT TypeOK
 INVARIANT NoSharing
-INVARIANT DefaultStable
-PROPERTY Isolated
-PROPERTY DefaultUntouched
-PROPERTY ObsSound
